@@ -255,7 +255,7 @@ fn parse_ifdata_taggeditem(
                 let endtag = parser.get_token_text(endident);
                 if endtag != tag {
                     return Err(ParserError::IncorrectEndTag {
-                        filename: parser.filenames[context.fileid].to_string(),
+                        filename: parser.filenames[parser.last_token_fileid].to_string(),
                         error_line: parser.last_token_position,
                         tag: endtag.to_owned(),
                         block: newcontext.element.clone(),
@@ -474,7 +474,7 @@ fn parse_unknown_taggedstruct(
             let endtag = parser.get_token_text(endident);
             if endtag != tag {
                 return Err(ParserError::IncorrectEndTag {
-                    filename: parser.filenames[newcontext.fileid].to_string(),
+                    filename: parser.filenames[parser.last_token_fileid].to_string(),
                     error_line: parser.last_token_position,
                     tag: endtag.to_owned(),
                     block: newcontext.element.clone(),
@@ -511,7 +511,7 @@ fn parse_unknown_taggedstruct(
     }) = parser.peek_token()
     {
         return Err(ParserError::InvalidBegin {
-            filename: parser.filenames[context.fileid].to_string(),
+            filename: parser.filenames[parser.last_token_fileid].to_string(),
             error_line: parser.last_token_position,
             block: context.element.clone(),
         });
